@@ -19,6 +19,7 @@ EXPLANATION = (
     ' (R7) based-literal evaluators parse with <T>::from_str_radix where T is the payload type of the Value variant they build, without a cast.'
     " (R8) float-valued literal evaluators (float, integer, scientific) return the result of str::parse::<f64>() on text spelled from the literal's tokens; float arithmetic between the digits and the result is allowed only under a guard on the exponent's fractional digits (no decimal spelling exists there)."
     ' (R9) rational(): numerator and denominator are parsed with parse::<i64>() and reach R64::new without a cast or a detour through f64.'
+    " (R10) suffixed / annotated integer digits reach their integer kind through an integer parse (today they go through integer()'s f64: known finding)."
 )
 RADIX = {"Hexadecimal": ("0x", "16"), "Octal": ("0o", "8"), "Binary": ("0b", "2"), "Decimal": ("0d", "10")}
 
@@ -292,3 +293,34 @@ def run_r9(F, rep):
                   types, (" and casts " + ", ".join(casts)) if casts else ""), "rational (mech_interpreter.lib)", sample={"parsed_as": types, "casts": casts})
     news = [c for c in find(body, "call") if (path_of(c[1]) or "").endswith("R64::new")]
     rep.floor("C13-R9", "R64::new constructions in rational()", len(news), 1)
+    run_r10(F, rep)
+
+
+def run_r10(F, rep):
+    """C13-R10: suffixed / annotated integer digits are converted exactly"""
+    rep.rule("C13-R10", "suffixed and annotated integer literals are exact: on the way from the digits of an integer token to a value of an integer kind (typed_literal / the TypedInteger "
+                       "arm of real()) the digits are parsed with an integer type; today every integer token is evaluated by integer() as an f64 first, so digits above 2^53 are rounded "
+                       "before the kind conversion sees them")
+    its = {it["name"]: it for it in F.syn("mech_interpreter.lib") if it["k"] == "fn" and it.get("mod", "").endswith("literals") and it["name"] in ("typed_literal", "integer", "real") and it.get("body")}
+    if not rep.check(len(its) == 3, "C13-R10", "anchor:typed_literal-integer-real", "typed_literal / integer / real not found: %s" % sorted(its)):
+        return
+    def int_parse(body):
+        out = []
+        for m in find(body, "mcall"):
+            if m[2] == "parse" and re.sub(r"[:<>\s]", "", m[3] or "") in ("u64", "i64", "u128", "i128", "u32", "i32", "u16", "i16", "u8", "i8"):
+                out.append(re.sub(r"[:<>\s]", "", m[3]))
+        for c in find(body, "call"):
+            if (path_of(c[1]) or "").endswith("from_str_radix"):
+                out.append(path_of(c[1]).split("::")[0])
+        return out
+    via_f64 = any(m[2] == "parse" and re.sub(r"[:<>\s]", "", m[3] or "") == "f64" for m in find(its["integer"]["body"], "mcall"))
+    exact_path = int_parse(its["typed_literal"]["body"])
+    # the TypedInteger arm of real()
+    for m in find(its["real"]["body"], "match"):
+        for a in m[2]:
+            if "TypedInteger" in render_pat(a[0]):
+                exact_path += int_parse(a[2])
+    ok = bool(exact_path) or not via_f64
+    rep.check(ok, "C13-R10", "typed-integer:exact-digits" if ok else "typed-integer:digits-through-f64",
+              "an integer token is evaluated by integer() as parse::<f64>() and neither typed_literal() nor the TypedInteger arm of real() parses the digits with an integer type: "
+              "`9007199254740993u64` and `9007199254740993<u64>` evaluate to 9007199254740992", "typed_literal / real (mech_interpreter.lib)", sample={"integer_parses_f64": via_f64, "exact_parses": exact_path})
